@@ -479,7 +479,9 @@ class FieldValueComponentStringBase64(FieldValueComponentQuotedString):
 
     @classmethod
     def _parse_value(cls, parser):
-        parser.parse_string_by_length('value')
+        parser.parse_string_by_length('value', item_class=convert_base64_data())
+        if not isinstance(parser['value'], Base64Data):
+            raise InvalidValue(parser['value'], cls, 'value')
 
 
 @attr.s
